@@ -267,6 +267,9 @@ func (sc SimpleColumn) WriteTo(store ReadOnlyFactStore, w io.Writer) error {
 		return ErrTooManyPreds
 	}
 	if sc.Deterministic {
+		// Sort a copy: the slice may be the store's own (a SimpleColumnStore keeps
+		// its header order in it, parallel to its fact counts).
+		preds = append([]ast.PredicateSym(nil), preds...)
 		sort.Slice(preds, func(i, j int) bool {
 			a := preds[i]
 			b := preds[j]
